@@ -1384,7 +1384,7 @@ def _graph_for_json(g):
 def stream_correspondence(ctx, tmpdir, intensify):
     n = ctx.n(12, 70)
     if intensify:
-        n = max(n, 36)
+        n = max(n, 20)
     tasks, graphs = [], []
     for i in range(n):
         exotic = i % 3 == 2
@@ -1486,7 +1486,26 @@ def stream_api(ctx, tmpdir):
                       nofail=True)
 
 
-BASELINE_FP = {}
+BASELINE_FP = {
+    'jedi/api/__init__.py:Interpreter.__init__': 'fd73be0e136380b8',
+    'jedi/inference/compiled/access.py:DirectObjectAccess.get_dir_infos': '62e386e96577da0f',
+    'jedi/inference/compiled/access.py:DirectObjectAccess.has_iter': 'd57cacec9ae0f07f',
+    'jedi/inference/compiled/access.py:DirectObjectAccess.is_allowed_getattr': 'b971e3bdd16da3da',
+    'jedi/inference/compiled/access.py:DirectObjectAccess.py__bool__': 'f5c4d6fbb9b63a92',
+    'jedi/inference/compiled/access.py:DirectObjectAccess.py__iter__list': '38e99323f40b7c80',
+    'jedi/inference/compiled/access.py:DirectObjectAccess.py__simple_getitem__': '010efeb666614ce8',
+    'jedi/inference/compiled/getattr_static.py:_check_class': '6f7bd7181f3a3718',
+    'jedi/inference/compiled/getattr_static.py:_check_instance': '508c90b17efb419b',
+    'jedi/inference/compiled/getattr_static.py:_safe_is_data_descriptor': 'f50abc98ae1843e3',
+    'jedi/inference/compiled/getattr_static.py:_shadowed_dict': 'c8c55a4df7c5daf3',
+    'jedi/inference/compiled/getattr_static.py:getattr_static': '45dd285f0775a33c',
+    'jedi/inference/compiled/mixed.py:MixedObject.py__simple_getitem__': '91dcf708fdd1bca7',
+    'jedi/inference/compiled/value.py:CompiledValue.py__iter__': '94fe791f218e9bc0',
+    'jedi/inference/compiled/value.py:CompiledValue.py__simple_getitem__': 'f8ffaf953664619c',
+    'jedi/inference/compiled/value.py:CompiledValueFilter._get': 'bef39e9cc59c498b',
+    'jedi/inference/compiled/value.py:CompiledValueFilter.get': 'cdf9d18f8e34168b',
+    'jedi/inference/compiled/value.py:CompiledValueFilter.values': 'a503255e6d62dfbe',
+}
 
 
 def run(ctx):
